@@ -444,14 +444,14 @@ func resolveJBIG2Globals(r Getter, path *CycleCheck, f *FilterJBIG2) error {
 	}
 
 	// detect cycles in chains of /JBIG2Globals references
+	// (path.step also applies the depth cap: every link of such a chain
+	// costs a nested stream decode)
 	if ref, isRef := f.GlobalsRef.(Reference); isRef {
-		if path.Seen(ref) {
-			return &MalformedFileError{
-				Err: ErrCycle,
-				Loc: []string{"JBIG2Globals " + ref.String()},
-			}
+		next, err := path.step(ref)
+		if err != nil {
+			return Wrap(err, "JBIG2Globals")
 		}
-		path = &CycleCheck{Ref: ref, Parent: path}
+		path = next
 	}
 
 	// resolve the reference to get the stream
